@@ -34,16 +34,29 @@ static inline SyncReceiveBuffer *iora_make_srb(Impl *im)
 
 /* ---- iteration over receiveBuffers (tombstone GC): an abstract CURSOR over the witness-key map.
  * The map has N entries (arbitrary, >= 1 if the witness entry is present); the witness entry sits at an arbitrary position wpos; every other
- * position answers with an arbitrary other key and an arbitrary buffer. erase(it) removes the entry at the cursor and leaves the cursor on
- * the next one (N shrinks); ++it advances. Each entry is visited exactly once. ---- */
+ * position answers with an arbitrary other key and an arbitrary buffer (chosen when the cursor arrives). erase(it) removes the entry at the
+ * cursor and moves to the next one; ++it advances. Each entry of the map is visited exactly once. ---- */
 #define RBCUR_NONE ((size_t)-1)
-typedef struct { size_t k, N, wpos; } iora_rbcur;
+typedef struct { size_t k, N, wpos; } iora_rbcur;      /* positions refer to the sequence of entries at begin(); an erased entry keeps its position */
+SyncReceiveBuffer G_gc_other;          /* the buffer of the non-witness entry under the cursor: arbitrary, re-chosen when the cursor moves */
+static inline void iora_rbcur_load(const iora_rbcur *c)
+{
+  if (c->k < c->N && c->k != c->wpos)
+  {
+    SyncReceiveBuffer *o = &G_gc_other;
+    o->data.lo = nondet_size_t(); o->data.hi = nondet_size_t(); o->hasData = nondet_bool(); o->closed = nondet_bool();
+    o->waiters = nondet_size_t(); o->flushing = nondet_bool(); o->overflow = nondet_bool();
+    IORA_ASSUME(o->data.lo <= o->data.hi && o->hasData == (o->data.hi > o->data.lo));
+  }
+}
 static inline iora_rbcur iora_rbcur_begin(iora_rbmap *m)
 {
   IORA_GMAP1_GUARDED(m);
   iora_rbcur c; c.k = 0; c.N = nondet_size_t(); c.wpos = RBCUR_NONE;
   IORA_ASSUME(c.N < RBCUR_NONE);
   if (m->present) { c.wpos = nondet_size_t(); IORA_ASSUME(c.wpos < c.N); }
+  G_gc_other.guard = m->guard; G_gc_other.data.guard = m->guard;
+  iora_rbcur_load(&c);
   return c;
 }
 static inline bool iora_rbcur_more(const iora_rbcur *c) { return c->k < c->N; }
@@ -53,13 +66,13 @@ static inline SessionId iora_rbcur_first(const iora_rbcur *c)
   SessionId o = nondet_u64(); IORA_ASSUME(o != G_impl->receiveBuffers.wkey); return o; }
 static inline SyncReceiveBuffer *iora_rbcur_second(const iora_rbcur *c)
 { IORA_ASSERT(c->k < c->N, "map iterator dereferenced only when it is not end()"); IORA_GMAP1_GUARDED(&G_impl->receiveBuffers);
-  if (c->k == c->wpos) return G_impl->receiveBuffers.wval;
-  iora_rbmap_havoc_other(&G_impl->receiveBuffers); return G_impl->receiveBuffers.other; }
+  return c->k == c->wpos ? G_impl->receiveBuffers.wval : &G_gc_other; }
+/* it = m.erase(it): removes the entry at the cursor, the cursor then stands on the next entry */
 static inline void iora_rbcur_erase(iora_rbmap *m, iora_rbcur *c)
 { IORA_GMAP1_GUARDED(m); IORA_ASSERT(c->k < c->N, "erase(iterator): dereferenceable iterator");
-  if (c->k == c->wpos) { m->present = 0; c->wpos = RBCUR_NONE; } else if (c->wpos != RBCUR_NONE && c->k < c->wpos) c->wpos--;
-  c->N--; }
-static inline void iora_rbcur_next(iora_rbcur *c) { IORA_ASSERT(c->k < c->N, "++ on an iterator that is not end()"); c->k++; }
+  if (c->k == c->wpos) m->present = 0;
+  c->k++; iora_rbcur_load(c); }
+static inline void iora_rbcur_next(iora_rbcur *c) { IORA_ASSERT(c->k < c->N, "++ on an iterator that is not end()"); c->k++; iora_rbcur_load(c); }
 
 /* ---- ghost callback sequence (DESIGN C02: a sequence number per callback class). Every user callback asserts that NO Transport lock is held. ---- */
 #define LOCKFREE(im) (!(im)->syncMutex.held && !(im)->callbackMutex.held && !(im)->observerMutex.held && !(im)->userDataMutex.held)
@@ -119,10 +132,8 @@ static inline void iora_call_Cleanup(Impl *im, uint64_t data)
 /* loop 3: GC of stale tombstones (under syncMutex) */
 #define OC_WB (self->receiveBuffers.wval)
 #define IORA_LOOP_Impl_onClose_3 IORA_LC( \
-  __CPROVER_assigns(it.k, it.N, it.wpos, self->receiveBuffers.present, self->receiveBuffers.other->data.lo, self->receiveBuffers.other->data.hi, self->receiveBuffers.other->hasData, \
-      self->receiveBuffers.other->closed, self->receiveBuffers.other->waiters, self->receiveBuffers.other->flushing, self->receiveBuffers.other->overflow) \
+  __CPROVER_assigns(it.k, self->receiveBuffers.present, G_gc_other.data.lo, G_gc_other.data.hi, G_gc_other.hasData, G_gc_other.closed, G_gc_other.waiters, G_gc_other.flushing, G_gc_other.overflow) \
   __CPROVER_loop_invariant(it.k <= it.N) \
-  __CPROVER_loop_invariant(it.wpos == RBCUR_NONE || (it.wpos < it.N && self->receiveBuffers.present)) \
   __CPROVER_loop_invariant((self->receiveBuffers.present == 0 || self->receiveBuffers.present == 1) && (!self->receiveBuffers.present || __CPROVER_loop_entry(self->receiveBuffers.present))) \
   __CPROVER_loop_invariant(self->receiveBuffers.present == __CPROVER_loop_entry(self->receiveBuffers.present) \
        || (self->receiveBuffers.wkey != sid && OC_WB->closed && !OC_WB->hasData && OC_WB->waiters == 0 && !OC_WB->flushing)) \
